@@ -299,11 +299,37 @@ def acyclicity_core(rep, prog):
     for r in rets:
         if not after_loop(r):
             conds = [npred(strip_conv(c), pol) for c, pol in r.path]
+            pat_forms = [("cmp", "!=", A_, ("const", 0)), ("method", ("cmp", "!=", A_, ("const", 0)), "astype", (("extref", "int"),), ()),
+                         ("method", ("cmp", "!=", A_, ("const", 0)), "astype", (("extref", "bool"),), ()), ("method", A_, "astype", (("extref", "bool"),), ())]
+            edgeless = []
+            for pt_ in pat_forms:
+                edgeless += [npred(("method", pt_, "any", (), ()), False), npred(("cmp", "==", ("method", pt_, "sum", (), ()), ("const", 0)), True),
+                             npred(("cmp", "==", ("ext", "numpy.count_nonzero", (pt_,), ()), ("const", 0)), True), npred(("ext", "numpy.any", (pt_,), ()), False)]
+            edgeless += [npred(("cmp", "==", ("ext", "numpy.count_nonzero", (A_,), ()), ("const", 0)), True)]
+            raw_conds = [npred(c, pol) for c, pol in r.path]
+
+            def size_only(c_, pol_):
+                # the condition reads nothing of the matrix but its size
+                sizes = (("ext", "len", (A_,), ()), ("attr", A_, "shape"), ("attr", A_, "size"), ("attr", A_, "ndim"))
+                stripped = strip_conv(c_)
+                mentions_A = [x for x in walk(stripped) if x == A_]
+                inside = [x for x in walk(stripped) if x in sizes]
+                return bool(mentions_A) and len(mentions_A) == len(inside)
             if any(c in empty_forms for c in conds):
                 rep.ok("TOPO.fast-path", fwhere(f, r.node), "early return for the graph without nodes only")
-            else:
+            elif any(c in edgeless for c in raw_conds):
+                # no non-zero entry at all: nothing to reject; the value must still list every node
+                allnodes = any(isinstance(x, tuple) and len(x) == 4 and x[0] == "ext" and x[1] in ("numpy.where", "numpy.flatnonzero", "range", "numpy.arange") for x in walk(r.value))
+                if allnodes:
+                    rep.ok("TOPO.fast-path", fwhere(f, r.node), "early return for the graph without edges only (every node is a source; any order is topological)")
+                else:
+                    rep.unk("TOPO.fast-path", fwhere(f, r.node), "early return for the graph without edges: whether %s lists every node is not read" % fmt(r.value)[:60])
+            elif r.path and all(size_only(c, pol) for c, pol in r.path if not any(isinstance(x, tuple) and x[:2] == ("call", U + "only_undirected") for x in walk(c))):
                 rep.bad("TOPO.fast-path", fwhere(f, r.node), "an ordering is returned before the cycle checks under `%s`: a graph this condition admits (e.g. the 1 x 1 matrix "
                         "with a non-zero entry, a self-loop) is accepted without being tested" % "; ".join(pred_fmt(c) for c in conds)[:120])
+            else:
+                rep.unk("TOPO.fast-path", fwhere(f, r.node), "an ordering is returned before the work-list loop under `%s`: whether this condition admits a graph with a cycle is not decided" %
+                        "; ".join(pred_fmt(c) for c in conds)[:120])
     leftover = kahn_rules(rep, prog, f, S)
     cycle_rules(rep, prog, f, leftover)
     # is_dag turns *every* ValueError of topological_ordering into "not a DAG": a rejection that looks at the element type of the
